@@ -29,6 +29,11 @@ def run(tier, seed, vh, only_paths=None, mode=None):
         # the clean run (no crash) of every history is the baseline
         for h in hist[: (16 if tier == "quick" else 120)]:
             cases.append({"ops": h, "at": 0, "site": "none"})
+        # a pending expiration whose deadline passes while the bucket is closed: killed right after the last
+        # acknowledgement, or ended without a crash; re-opened two seconds after the deadline
+        for h in hist[: (3 if tier == "quick" else 12)]:
+            cases.append({"ops": h, "at": len(h), "site": "op.acked", "late": 2})
+            cases.append({"ops": h, "at": 0, "site": "none", "late": 2})
         res["gen_states"] = gen
     else:
         cases = only_paths
@@ -45,9 +50,15 @@ def run(tier, seed, vh, only_paths=None, mode=None):
         for f in (raw, out, out + ".bodies.json"):
             if os.path.exists(f):
                 os.remove(f)
-        rc1, o1 = sh([vh, "crashchild", "-ops", opsf, "-dir", d, "-out", raw, "-at", str(c["at"]), "-site", c["site"]], timeout=120)
+        late = c.get("late", 0)
+        t1 = time.time()
+        rc1, o1 = sh([vh, "crashchild", "-ops", opsf, "-dir", d, "-out", raw, "-at", str(c["at"]), "-site", c["site"]]
+                     + (["-late", str(late)] if late else []), timeout=120)
         killed = rc1 in (-9, 137)
-        rc2, o2 = sh([vh, "crashcheck", "-ops", opsf, "-dir", d, "-raw", raw, "-tr", str(i + 1), "-at", str(c["at"]), "-site", c["site"], "-out", out], timeout=120)
+        if late:
+            time.sleep(max(0.0, t1 + late + 2.0 - time.time()))
+        rc2, o2 = sh([vh, "crashcheck", "-ops", opsf, "-dir", d, "-raw", raw, "-tr", str(i + 1), "-at", str(c["at"]), "-site", c["site"], "-out", out]
+                     + (["-late"] if late else []), timeout=120)
         shutil.rmtree(d, ignore_errors=True)
         if rc2 != 0:
             return i, killed, None, (o1 + o2)[-400:]
